@@ -43,6 +43,13 @@ theorem src_hdf5list_loops :
     subsetB hdf5listGFCrystalcalc writeGFCrystalcalc = true := by
   decide +kernel
 
+/-- Taylor expansions as the source loads them now: always a permutation of what was saved (exact sums agree);
+    and the saved list itself as soon as the source restores the saved positions. -/
+theorem src_taylor_load {γ} (cl : List (Int × Nat × γ)) :
+    (taylorLoadSrc Generated.C13.taylorOrderRestored cl).Perm cl ∧
+    (Generated.C13.taylorOrderRestored = true → taylorLoadSrc Generated.C13.taylorOrderRestored cl = cl) :=
+  ⟨taylorLoadSrc_perm _ cl, fun h => by rw [h]; rfl⟩
+
 /-- `load_save_observational` for the vacancy-mediated calculator as it is in the source now: whatever the
     attribute values, if the codecs round-trip on them, any later sequence of calls of a method that reads only
     the extracted read-set returns the same results on the reloaded object. -/
